@@ -178,6 +178,23 @@ func (rw *rewriter) selectToSwitch(sel *ast.SelectStmt) ast.Stmt {
 	if hasDefault {
 		dflt = "true"
 	}
+	// a select whose clauses all terminate is a terminating statement; a switch is one
+	// only with a default clause: render the select's default (or else its last clause) as `default:`
+	{
+		idx := -1
+		for i, cl := range sw.Body.List {
+			cc := cl.(*ast.CaseClause)
+			if u, ok := cc.List[0].(*ast.UnaryExpr); ok && u.Op == token.SUB {
+				idx = i
+			}
+		}
+		if idx < 0 {
+			idx = len(sw.Body.List) - 1
+		}
+		if idx >= 0 {
+			sw.Body.List[idx].(*ast.CaseClause).List = nil
+		}
+	}
 	args := append([]ast.Expr{ast.NewIdent(dflt)}, holders...)
 	sw.Tag = rw.call("Select", args...)
 	blk.List = append(blk.List, sw)
